@@ -1793,7 +1793,9 @@ func runC07(c *Ctx) {
 		`image.new("ca",4,4); image.new("cb",2,2); image.add("ca","cb")`, `image.new("cc",3,3); image.new("cz",0,0); image.add("cc","cz")`,
 		`rest("\xffa")`, `for c = "\xc3a" { print(c) }`, `s = "éa"; rest(s[1:3])`,
 		// eval of an incomplete text (repaired by 9466c2d); a macro body calling eval (seeded regression 6-1)
-		`eval("()=> /* abc")`, `defun("df", [], ["()=> /* abc"])`, `m = macro(a){ eval("abs(-1)"); quote(unquote(a)) }; m(3)`}
+		`eval("()=> /* abc")`, `defun("df", [], ["()=> /* abc"])`, `m = macro(a){ eval("abs(-1)"); quote(unquote(a)) }; m(3)`,
+		// open-ended range outside an index expression with a register on the left (seeded regression 7)
+		"func(n){[n:]}(1)", "for i = 2 {[i:]}", "func tf(n){ x = n:; x }; tf(1)"}
 	for _, s := range corpus {
 		check(c, "corpus", s, std)
 		evalOneAgrees(c, s)
@@ -1971,6 +1973,8 @@ func runC07(c *Ctx) {
 	//     builtins / extensions (both in reentry.go)
 	reentryTexts(c)
 	macroBodyCalls(c)
+	// 3l. trees with nil children (open-ended `:`, empty blocks, bare return, no else) x register-held variables
+	nilChildShapes(c)
 
 	// 4. builtin / extension sweep
 	sweep(c)
